@@ -91,7 +91,7 @@ def judge_text(entry, text):
     err, probs = closure.analyse(text, closure.supplied_from_yaml(entry["yaml"]))
     ranks_ = [r for rs in entry["yaml"]["einsum"]["declaration"].values() for r in rs]
     probs = [p for p in probs if not (p.site.startswith("iterRangeShapeRef") and p.name[-1:].isdigit())   # F1, F17: see C06 / C16
-             and not closure.is_flattened_name(p.name, ranks_)], see C06
+             and not closure.is_flattened_name(p.name, ranks_)]
     if err or probs:
         return "not-closed", "emitted text is not closed: %s" % (err or probs[:3]), 0
     if entry.get("spec") is None:
